@@ -205,8 +205,12 @@ int _GD_CodeOffsets(DIRFILE *D, int index, const char *code, unsigned flags,
     else if (F->pxl && strncmp(code + offset[2], F->px, F->pxl))
       ret = 3;
     /* Suffix present */
-    else if (F->sxl && strncmp(code + offset[7] - F->sxl, F->sx, F->sxl))
+    else if (F->sxl && (offset[7] < F->sxl ||
+          strncmp(code + offset[7] - F->sxl, F->sx, F->sxl)))
+    {
+      /* (a code shorter than the suffix certainly doesn't end in it) */
       ret = 4;
+    }
   }
 
   dreturn("%i (%" PRIuSIZE ", %" PRIuSIZE ", %" PRIuSIZE ", %" PRIuSIZE ", %"
